@@ -74,6 +74,13 @@ def enumerate_cases(tier, seed):
                     # the root's name ('<root>-private')
                     for cwd in ("root", "sub", "sibling"):
                         yield {"chroot": ch, "setuid": su, "setgid": sg, "fail": None, "real": False, "ids": 0, "cwd": cwd}
+    # a fresh interpreter per start-up, with other string-hash seeds than this process runs under (the order in which a set or
+    # a dict built from a set is walked differs from one server start to the next)
+    for hs in (1, 2, 3, 5, 7, 11):
+        for ch in (False, True):
+            yield {"chroot": ch, "setuid": True, "setgid": True, "fail": None, "real": False, "ids": 0, "hashseed": hs}
+    for hs in (1, 2, 3):
+        yield {"chroot": True, "setuid": True, "setgid": True, "fail": "setregid", "real": False, "ids": 0, "hashseed": hs}
     for ch, su, sg in ((True, True, True), (True, False, False), (False, True, True)):
         yield {"chroot": ch, "setuid": su, "setgid": sg, "fail": None, "real": True}
     for ch, su, sg in ((True, True, True), (True, False, False), (False, True, True), (False, True, False), (False, False, True)):
@@ -363,7 +370,39 @@ def _real_child(case, base, root):
     return out
 
 
+class _NullCtx:
+    def __getattr__(self, n):
+        return lambda *a, **k: None
+
+
+_CHILD = r"""
+import json, sys
+from pgv.props import c19
+case = json.loads(sys.argv[1])
+fails = c19.check_case(case, c19._NullCtx())
+print("RESULT " + json.dumps([[f.sig, f.msg] for f in fails]))
+"""
+
+
+def _in_fresh_interpreter(case, ctx):
+    import json
+    import subprocess
+    import sys
+    inner = {k: v for k, v in case.items() if k != "hashseed"}
+    env = dict(os.environ, PYTHONHASHSEED=str(case["hashseed"]))
+    p = subprocess.run([sys.executable, "-W", "ignore", "-c", _CHILD, json.dumps(inner)], env=env, capture_output=True, text=True,
+                       cwd=os.path.dirname(os.path.dirname(os.path.dirname(os.path.abspath(__file__)))), timeout=120)
+    line = [l for l in p.stdout.splitlines() if l.startswith("RESULT ")]
+    if not line:
+        raise RuntimeError("fresh interpreter gave no result: rc=%s %s" % (p.returncode, p.stderr[-400:]))
+    ctx.label("fresh-interpreter", "hashseed:%d" % case["hashseed"])
+    ctx.nontriv(("hashseed", case["hashseed"], case["chroot"], case["fail"]))
+    return [Fail(sig, "%s (a server start with PYTHONHASHSEED=%d)" % (msg, case["hashseed"])) for sig, msg in json.loads(line[0][7:])]
+
+
 def check_case(case, ctx):
+    if "hashseed" in case:
+        return _in_fresh_interpreter(case, ctx)
     from pygopherd import initialization
     base, root = world.build([["readme.txt", "f", "x\n"], ["sub/f.txt", "f", "y\n"]], "c19")
     try:
